@@ -687,3 +687,38 @@ Definition run_transport (tr : transport) : prim -> res prim :=
 Definition codec_of_suffix (tbl : list (string * codec)) (sfx : string) : option codec := dict_get String.eqb sfx tbl.
 Definition transport_of_codec (c : codec) : option transport :=
   match c with CJson => Some TrJson | CYaml => Some TrYaml | CPickle => Some TrPickle | COther => None end.
+
+(* ---------------------------------------------------------------------------------------------- *)
+(* save_dc_types=True: to_dict puts DC_TYPE_KEY -> "module.Class" first in the dict of the instance and of every
+   dataclass it reaches by its own recursion (a dataclass-valued field without encoding_fn); container elements go
+   through encode() and get none.  from_dict pops the key (from its COPY of the dict) and restarts on the located class. *)
+Fixpoint add_types (key modname : string) (v : value) (p : prim) : prim :=
+  match v, p with
+  | VDc _ c fs, PDict od kvs =>
+      PDict od ((PStr key, PStr (modname ++ "." ++ c)) ::
+                map (fun kv =>
+                       match fst kv with
+                       | PStr n =>
+                           match find (fun f => match f with (n', _, _) => String.eqb n' n end) fs with
+                           | Some (_, m, x) =>
+                               match m.(m_enc), x with
+                               | None, VDc _ _ _ => (fst kv, add_types key modname x (snd kv))
+                               | _, _ => kv
+                               end
+                           | None => kv
+                           end
+                       | _ => kv
+                       end) kvs)
+  | _, _ => p
+  end.
+
+(* the dict as the located classes see it: without the DC_TYPE_KEY entries *)
+Fixpoint strip_key (key : string) (p : prim) : prim :=
+  match p with
+  | PList ps => PList (map (strip_key key) ps)
+  | PTuple ps => PTuple (map (strip_key key) ps)
+  | PDict od kvs =>
+      PDict od (filter (fun kv => negb (prim_eqb (fst kv) (PStr key)))
+                       (map (fun kv => (fst kv, strip_key key (snd kv))) kvs))
+  | _ => p
+  end.
